@@ -141,6 +141,15 @@ func (ms *Modules) resolveIdentities() []error {
 
 	var errs []error
 
+	// Start afresh: an earlier call may have seen other modules, and bound
+	// includes to other revisions, than this one.
+	ms.typeDict.identities.dict = map[string]resolvedIdentity{}
+	for _, m := range ms.loaded {
+		for _, i := range m.Identities() {
+			i.Values = nil
+		}
+	}
+
 	// Across all modules, read the identity values that have been extracted
 	// from them, and compile them into a "fully resolved" map that means that
 	// we can look them up based on the 'real' prefix of the module and the
